@@ -309,7 +309,12 @@ SigAff(o, W, p, x, t, e) ==
 SpreadCause(o, W, p, x, s, U, e, gmd, owners) ==
     LET relaxed == e # <<>> /\ (e[1].tol # p.tol \/ e[1].terms # p.terms)
         mds == {m \in gmd : m # s.minDomains}
-        oth == {q \in {PodByKey(W.cfg, k) : k \in {y \in owners : KnownPod(W.cfg, y)}} : q.sel # p.sel \/ q.terms # p.terms \/ q.tol # p.tol}
+        \* pods whose node filter the code may have judged p with: the other owners of the code's group, and (an ownerless group
+        \* survives the requeue of the pod that created it) every batch pod with a constraint on the same key whose node
+        \* filter constrains the same label keys with other values - the identity of a group ignores the values
+        oth == {q \in {PodByKey(W.cfg, k) : k \in {y \in owners \cup W.batch : KnownPod(W.cfg, y)}} :
+                    /\ q.sel # p.sel \/ q.terms # p.terms \/ q.tol # p.tol
+                    /\ PKey(q) \in owners \/ (NodeConstraintKeys(q) = NodeConstraintKeys(p) /\ \E i \in DnsIdx(q) : q.spread[i].key = s.key)}
         c1 == \E m \in mds : SpreadOK(o, W, p, x, [s EXCEPT !.minDomains = m], U)
         c2 == s.affPol = "Ignore" /\ SpreadOK([o EXCEPT !.ignoreWidens = FALSE], W, p, x, s, U)
         c3 == e # <<>> /\ Len(p.terms) > 1 /\ SpreadOK([o EXCEPT !.dpod = e], W, p, x, s, U)
